@@ -20,6 +20,8 @@ func checkC17(r *Run) {
 	r.Rule("R4", "unescaped, unmodified: results are template.HTML of the rendered text; between render and result only the content-type-conditional JS escape may intervene, and it precedes the layout step; yield is template.HTML of the (already escaped) part", 1)
 	r.Rule("R5", "the block reaches the helper: the parser attaches a '{ ... }' after a call to the call node, and the auto-supplied helper context carries it (C12.R5)", 1)
 	r.Rule("R6", "rendering a block leaves the evaluator in the scope it found: BlockWith (and every other scope installer) restores the saved scope by defer (C09.R1)", 1)
+	r.Rule("R7", "a template is executed in the context it is given: where an evaluator is built its scope is the context parameter itself (a top-level contentFor must be found by the layout rendered afterwards with the same context)", 1)
+	execScopeRule(r, "R7")
 	scopeDisciplineRuleSSA(r, "R6")
 	exactlyOnceRule(r, "R1")
 	contentRulesSSA(r, "R1", "R2", "R3", "")
